@@ -245,6 +245,8 @@ class Evaluator:
             if n.attr != self.pi:
                 return Top("other parameter")
             return Form("aff", 1, 0, 1)
+        if op == "ub_const":
+            return Bad("signed-overflow", n)
         if op == "const":
             if n.ty not in dag.INT_BITS:
                 return Top("fp const")
